@@ -120,7 +120,7 @@ func checkMatchDispatch(r *Run, prog *Program, a *Anchors, pfx string) {
 						e = &Sym{K: sNewErr, V: ev.Instr.Value(), Str: "lookup"}
 						getErrSym = e
 					}
-					return &Sym{K: sTuple, Kids: []*Sym{{K: sOpaque, V: ev.Instr.Value(), Str: "value"}, {K: sConst, C: constant.MakeBool(sc.present)}, e}}
+					return a.lookupModel(&Sym{K: sOpaque, V: ev.Instr.Value(), Str: "value"}, &Sym{K: sConst, C: constant.MakeBool(sc.present)}, e)
 				}
 				if isMatcherCall(a, ev) {
 					var e *Sym = &Sym{K: sConst, C: nil}
